@@ -34,14 +34,18 @@ theorem exprToTable_den (e : Expr α) :
 theorem tableToExpr_den (t : Table α) (h : t.WF) : ∀ ρ, (tableToExpr t).den ρ = t.den ρ :=
   fun ρ => BoolFn.tableToExpr_den t h ρ
 
-/-! ### E → B: succeeds unless there are more than 65 535 literals; never panics -/
+/-! ### E → B: succeeds unless there are more than 65 533 literals (then: the error); never panics — in
+    particular the assertion of lib-bdd's variable-set constructor (65 534 variables or more) is never
+    reached, which is what the `fix:` for D15 established -/
 theorem exprToBdd_den (e : Expr α) (hsmall : e.inputs.length ≤ maxBddVars) :
     ∃ b, exprToBdd e = .ok (.ok b) ∧ b.WF ∧ b.inputs = e.inputs ∧ ∀ ρ, b.den ρ = e.den ρ := by
   have hcov : ∀ x ∈ e.vars, x ∈ Expr.inputs e := fun x hx => (mem_sortDedup x _).mpr hx
   obtain ⟨i, hi, hn, hwf, hden⟩ := exprToInner_denotes (Expr.inputs e) e hcov
   refine ⟨⟨e.inputs, i⟩, ?_, ⟨strictSorted_sortDedup _, hn, ?_⟩, rfl, hden⟩
   · simp only [exprToBdd]
-    rw [if_neg (by omega), hi]
+    have h1 : maxBddVars = 65533 := rfl
+    have h2 : libBddPanicsFrom = 65534 := rfl
+    rw [if_neg (by omega), if_neg (by omega), hi]
   · exact hwf
 
 theorem exprToBdd_fails_only_too_many (e : Expr α) (err : ConvErr) (h : exprToBdd e = .error err) :
@@ -49,7 +53,10 @@ theorem exprToBdd_fails_only_too_many (e : Expr α) (err : ConvErr) (h : exprToB
   simp only [exprToBdd] at h
   split at h
   · rename_i hbig; cases h; exact ⟨rfl, hbig⟩
-  · cases h
+  · split at h <;> cases h
+
+/-- the crate's own limit keeps below the count at which lib-bdd panics -/
+theorem limit_below_lib_bdd_assertion : maxBddVars < libBddPanicsFrom := by decide
 
 /-! ### B → T -/
 theorem bddToTable_den (b : Bdd α) (h : b.WF) :
